@@ -209,7 +209,7 @@ def shrink(hbin, fail):
             if o == keep:
                 continue
             cand = [x for x in ops if x != o]
-            a2 = " ".join(f[:9] + ["ops=" + ",".join(cand)])
+            a2 = " ".join(f[:9] + ["ops=" + ",".join(cand)] + f[10:])
             _, fs = replay_case(hbin, a2, line)
             fs = [x for x in fs if x["kind"] == kind]
             if fs:
